@@ -420,6 +420,16 @@ def call_py(ex, obj, name, node, st):
     import builtins
 
     short = name.split(".")[-1]
+    if getattr(obj, "__name__", "") == "get" and isinstance(getattr(obj, "__self__", None), dict):
+        # CONSTANT_DICT.get(key, default) with a symbolic key: one of the dictionary's values, or the default
+        d = obj.__self__
+        args, _ = ex.eval_args(node, st)
+        if len(args) != 2 or not all(isinstance(v, str) for v in d.values()) or not isinstance(args[1], VStr):
+            raise Unsupported("dict.get outside the supported form (str values, explicit str default)")
+        r = fresh("dictget", S)
+        vals = sorted(set(d.values()))
+        st.fact(z3.Or(r == args[1].z, *[r == z3.StringVal(v) for v in vals]))
+        return VStr(r)
     if obj is builtins.len:
         (a,), _ = ex.eval_args(node, st)
         if isinstance(a, (VBytes, VStr)):
